@@ -377,8 +377,10 @@ def run_property(root, pid, tier, seed, replay, no_proofs=False):
     if concrete:
         concrete.sort(key=shrink_key)
         replay_path = os.path.join(root, "replays", "%s-%s-%d.json" % (pid, tier, seed))
+        corr.sort(key=shrink_key)
         json.dump(dict(property=pid, kind="concrete", tier=tier, seed=seed, cases=concrete[:20],
-                       total_concrete=len(concrete)), open(replay_path, "w"), indent=1)
+                       total_concrete=len(concrete), correspondence_breaks=len(corr),
+                       correspondence_breaks_sample=corr[:10]), open(replay_path, "w"), indent=1)
         log("VIOLATION property=%s replay=%s" % (pid, replay_path))
         log("  first: %s" % json.dumps(concrete[0])[:600])
         rc = 1
